@@ -55,7 +55,7 @@ impl<'s, const TYPE: u16> Attribute<'s> for StringAttribute<'s, TYPE> {
         msg: &'s mut ParsedMessage,
         attr: ParsedAttr,
     ) -> Result<Self, Error> {
-        Ok(Self(from_utf8(attr.get_value(msg.buffer()))?))
+        Ok(Self(from_utf8(attr.get_trimmed_value(msg.buffer()))?))
     }
 
     fn encode(&self, _: Self::Context, builder: &mut MessageBuilder) -> Result<(), Error> {
@@ -85,7 +85,7 @@ impl<'s, const TYPE: u16> Attribute<'s> for BytesAttribute<'s, TYPE> {
         msg: &'s mut ParsedMessage,
         attr: ParsedAttr,
     ) -> Result<Self, Error> {
-        Ok(Self(attr.get_value(msg.buffer())))
+        Ok(Self(attr.get_trimmed_value(msg.buffer())))
     }
 
     fn encode(&self, _: Self::Context, builder: &mut MessageBuilder) -> Result<(), Error> {
@@ -115,7 +115,7 @@ impl Attribute<'_> for UnknownAttributes {
     const TYPE: u16 = 0x000A;
 
     fn decode(_: Self::Context, msg: &mut ParsedMessage, attr: ParsedAttr) -> Result<Self, Error> {
-        let mut value = attr.get_value(msg.buffer());
+        let mut value = attr.get_trimmed_value(msg.buffer());
 
         let mut attributes = vec![];
 
